@@ -148,6 +148,7 @@ class SessionManager:
         self._merkle_lookups = 0
         self._merkle_hits = 0
         self.notified_height = None
+        self._notify_count = 0
         self.hsub_results = None
         self._sslc = None
         # Event triggered when electrumx is listening for incoming requests.
@@ -828,7 +829,13 @@ class SessionManager:
             result = self._history_cache[hashX]
             self._history_hits += 1
         except KeyError:
-            result = await self.db.limited_history(hashX, limit=limit)
+            # Ensure the history is fresh before placing it in the cache: a notification
+            # issued while it was being read has already invalidated the cache
+            while True:
+                notify_count = self._notify_count
+                result = await self.db.limited_history(hashX, limit=limit)
+                if notify_count == self._notify_count:
+                    break
             cost += 0.1 + len(result) * 0.001
             if len(result) >= limit:
                 result = RPCError(BAD_REQUEST, 'history too large', cost=cost)
@@ -840,13 +847,15 @@ class SessionManager:
 
     async def _notify_sessions(self, height, touched):
         '''Notify sessions about height changes and touched addresses.'''
-        height_changed = height != self.notified_height
-        if height_changed:
-            await self._refresh_hsub_results(height)
-            # Invalidate our history cache for touched hashXs
-            cache = self._history_cache
-            for hashX in set(cache).intersection(touched):
-                del cache[hashX]
+        # A reorg can end at the height already notified: the tip and histories still change
+        prior_results = self.hsub_results
+        await self._refresh_hsub_results(height)
+        height_changed = self.hsub_results != prior_results
+        self._notify_count += 1
+        # Invalidate our history cache for touched hashXs
+        cache = self._history_cache
+        for hashX in set(cache).intersection(touched):
+            del cache[hashX]
 
         async with TaskGroup() as group:
             for session in self.sessions:
